@@ -124,6 +124,11 @@ class FileServer(Resource, aiocoap.interfaces.ObservableResource):
         path = request.opt.uri_path
         if any("/" in p or p in (".", "..") for p in path):
             raise InvalidPathError()
+        if "" in path[:-1]:
+            # An empty component anywhere but at the end (where it indicates
+            # a directory) would make the joined path absolute and thus
+            # escape the root.
+            raise InvalidPathError()
 
         return self.root / "/".join(path)
 
